@@ -93,7 +93,7 @@ def step (n : Naming) (ws : List String) : Naming × String :=
   | "list" :: rest =>
     let k := parseSKey (kv rest "svc")
     let l := n.queryList k (kv rest "ho" == "1")
-    (n, s!"insts {joinOrDash (sorted (l.map (showInst · false)))} all={joinOrDash (sorted ((n.queryAll k).map (showInst · false)))}")
+    (n, s!"insts {joinOrDash (sorted (l.map (showInst · false)))} all={joinOrDash (sorted ((n.queryAll k).map (showInst · false)))} sinfo={joinOrDash (sorted (l.map fun i => s!"{i.ip}:{i.port}"))}")
   | "all" :: rest => (n, s!"insts {joinOrDash (sorted ((n.queryAll (parseSKey (kv rest "svc"))).map (showInst · true)))}")
   | ["info"] =>
     let l := sorted (n.services.map fun e => s!"{e.1.group}|{e.1.service}:{e.2.instSize}:{e.2.healthySize}")
@@ -182,7 +182,15 @@ def listVerdict (op : List String) (ans : List String) (protect : Nat) : String 
   let want :=
     if total > 0 && healthy * 1000 ≤ protect * total then enabled.map fun i => i.replace ":h0:" ":h1:"
     else if ho then enabled.filter fun i => (i.splitOn ":").contains "h1" else enabled
-  if sorted want == got then "spec ok" else s!"spec FAIL instance query returned {got}, the registered enabled instances give {sorted want}"
+  let addr (i : String) : String := ":".intercalate ((i.splitOn ":").take 2)
+  let si := match ans.find? (·.startsWith "sinfo=") with
+    | some t => some (sorted (splitList (t.drop 6).toString))
+    | none => none
+  if sorted want != got then s!"spec FAIL instance query returned {got}, the registered enabled instances give {sorted want}"
+  else match si with
+    | some l => if l == sorted (want.map addr) then "spec ok"
+                else s!"spec FAIL QueryServiceInfo returned {l}, the registered enabled instances give {sorted (want.map addr)}"
+    | none => "spec ok"
 
 /-- C12: a closing connection removes exactly its own ephemeral instances -/
 def rmclientVerdict (cid : String) (ans : String) : String :=
